@@ -31,9 +31,17 @@ def marker_shaped(s):
     return bool(MARKER.match(s))
 
 
-def const_env(fn, base=None):
+def const_env(fn, base=None, repo=None):
     """Sequentially fold simple constant assignments of a function into an evaluator environment."""
     ev = Evaluator(dict(base or {}))
+    # module-level constants the function may refer to (folded in source order)
+    mod = repo.mod_of(fn) if repo is not None else None
+    if mod is not None:
+        for st in mod.tree.body:
+            if isinstance(st, ast.Assign) and len(st.targets) == 1 and isinstance(st.targets[0], ast.Name) and st.targets[0].id not in ev.env:
+                v = ev.ev(st.value)
+                if v is not UNKNOWN and not isinstance(v, (Abstract, AbstractEntry)):
+                    ev.env[st.targets[0].id] = v
     for st in fn.body:
         for n in ([st] if isinstance(st, ast.Assign) else []):
             if len(n.targets) == 1 and isinstance(n.targets[0], ast.Name):
@@ -207,7 +215,7 @@ def _run_base(ctx):
         raise AnalysisError('format_merge_render_lines: fewer line insertions than expected')
     # (c) marker cells
     mic = repo.func(STR + ':make_inline_cell_conflict')
-    mev = const_env(mic)
+    mev = const_env(mic, repo=repo)
     for c in calls_in(mic, nested=False):
         if ('func', STR + ':cell_marker') in cg.resolve(c.func, mic):
             v = mev.ev(c.args[0]) if c.args else UNKNOWN
